@@ -94,14 +94,17 @@ class Symx:
         self._cparams = {}          # frame -> {const generic name: symbolic value}
 
     # ------------------------------------------------------------------ public
-    def run(self, fn, args=None, store=None):
+    def run(self, fn, args=None, store=None, cparams=None):
         """enumerate paths of fn; args: list of symbolic values for parameters 1..argc;
-        store: initial contents of storage locations {(root, path): value} (for by-reference args)"""
+        store: initial contents of storage locations {(root, path): value} (for by-reference args);
+        cparams: values of the function's const generic parameters {name: symbolic value}"""
         self.npaths = 0
         st = State()
         if store:
             st.ov.update(store)
         frame = self._new_frame()
+        if cparams:
+            self._cparams[frame] = dict(cparams)
         self._bind_args(fn, frame, st, args)
         out = []
         for st2, ret in self._explore(fn, frame, st, 0, 0, ()):
